@@ -120,3 +120,394 @@ fn c04_writer_direct_step() {
     kani::cover!(bw.is_ended(), "direct-finishes");
     kani::cover!(!bw.is_ended() && amount > 0, "direct-partial");
 }
+
+// =====================================================================================
+// C03 / C18 / C19 — chunked request body writer
+// =====================================================================================
+use std::sync::atomic::{AtomicUsize, Ordering};
+
+/// Number of hex digits of `t` (no leading zeros; 0 -> 1).
+pub(crate) fn hexlen(t: usize) -> usize {
+    if t < 0x10 {
+        1
+    } else if t < 0x100 {
+        2
+    } else if t < 0x1000 {
+        3
+    } else if t < 0x1_0000 {
+        4
+    } else if t < 0x10_0000 {
+        5
+    } else if t < 0x100_0000 {
+        6
+    } else if t < 0x1000_0000 {
+        7
+    } else if t < 0x1_0000_0000 {
+        8
+    } else {
+        16
+    }
+}
+
+/// Wire size of one chunk carrying `t` data bytes: `hex(t) CRLF data CRLF`.
+pub(crate) fn chunk_wire(t: usize) -> usize {
+    t + hexlen(t) + 4
+}
+
+/// Declarative contract for ONE chunk (from the property text, not from the code):
+/// `t` is the number of data bytes of the chunk emitted for `inlen` offered bytes into
+/// `avail` free bytes with chunks capped at `max_chunk`; 0 = no chunk.
+///   * a chunk is never empty and never exceeds the offer or the cap        (C03)
+///   * it fits                                                              (C03)
+///   * it is the largest such chunk: either everything offered (up to the cap) went in,
+///     or one more byte would not have fit                                  (C18/C19)
+///   * no chunk at all only if not even a 1-byte chunk (6 bytes) fits       (C19)
+pub(crate) fn chunk_spec(t: usize, inlen: usize, avail: usize, max_chunk: usize) -> bool {
+    let m = if inlen < max_chunk { inlen } else { max_chunk };
+    if t == 0 {
+        return m == 0 || avail < 6;
+    }
+    t <= m && chunk_wire(t) <= avail && (t == m || chunk_wire(t + 1) > avail)
+}
+
+static G_CHUNKS: AtomicUsize = AtomicUsize::new(0);
+static G_DATA: AtomicUsize = AtomicUsize::new(0);
+static G_WIRE: AtomicUsize = AtomicUsize::new(0);
+
+/// Contract stub for `write_chunk` used by the composite harnesses: havoc constrained by
+/// `chunk_spec`; advances the cursor by the wire size (content is the lemma's business).
+/// The lemma harnesses below prove the real `write_chunk` satisfies the same contract.
+pub(crate) fn p_write_chunk(input: &[u8], input_used: &mut usize, w: &mut Writer, max_chunk: usize) -> bool {
+    let avail = w.available();
+    let t: usize = kani::any();
+    kani::assume(chunk_spec(t, input.len(), avail, max_chunk));
+    if t == 0 {
+        return false;
+    }
+    let pos = w.0.position();
+    w.0.set_position(pos + chunk_wire(t) as u64);
+    *input_used += t;
+    G_CHUNKS.fetch_add(1, Ordering::Relaxed);
+    G_DATA.fetch_add(t, Ordering::Relaxed);
+    G_WIRE.fetch_add(chunk_wire(t), Ordering::Relaxed);
+    input.len() > t
+}
+
+const NBIG: usize = 10300;
+
+/// Count abstraction of `<Writer as io::Write>::write` (= `Cursor<&mut [u8]>::write`):
+/// advances the cursor by min(len, remaining) WITHOUT copying the bytes. Used only by the
+/// count lemmas on 10 KB buffers, where the symbolic-length memcpy exhausts memory; the
+/// byte lemmas on small buffers keep the real writer.
+pub(crate) fn p_writer_write_counts<'a>(w: &mut Writer<'a>, buf: &[u8]) -> std::io::Result<usize>
+where
+    'a: 'a,
+{
+    let pos = w.0.position();
+    let rem = w.0.get_ref().len() - pos as usize;
+    let amt = if buf.len() < rem { buf.len() } else { rem };
+    w.0.set_position(pos + amt as u64);
+    Ok(amt)
+}
+
+fn hexval(c: u8) -> Option<usize> {
+    match c {
+        b'0'..=b'9' => Some((c - b'0') as usize),
+        b'a'..=b'f' => Some((c - b'a') as usize + 10),
+        _ => None,
+    }
+}
+
+//@ props: C03 C18 C19
+//@ tier: quick
+//@ unwind: 7
+//@ unwindset: c03_lemma_write_chunk_counts=8
+//@ timeout: 1500
+//@ mem: 24
+//@ encodes: body::write_chunk (real, incl. core::fmt hex formatting of the size line and write_all), Writer::try_write rollback
+//@ stubs_note: <Writer as io::Write>::write replaced by its count abstraction (cursor advance without memcpy)
+//@ vars: in: 1..=10300 (crosses DEFAULT_CHUNK_SIZE 10240); out: 0..=10300; payload concrete zeros; cursor at 0; max_chunk = DEFAULT_CHUNK_SIZE
+//@ bounds: in,out <= 10300; payload content not symbolic here (see c03_lemma_write_chunk_bytes)
+//@ outside: buffers above 10300 bytes for a single chunk (a chunk never exceeds 10240+8)
+//@ clause: real write_chunk == chunk_spec: non-empty, fits, maximal, progress whenever 6 bytes are free; wire size = hexlen(t)+t+4; failure leaves cursor and input_used untouched; returns more == (chunk emitted && input left)
+#[kani::proof]
+#[kani::stub(<Writer<'_> as std::io::Write>::write, p_writer_write_counts)]
+fn c03_lemma_write_chunk_counts() {
+    let il: usize = kani::any();
+    let ol: usize = kani::any();
+    kani::assume(il >= 1 && il <= NBIG);
+    kani::assume(ol <= NBIG);
+    let input = [0u8; NBIG];
+    let mut out = [0u8; NBIG];
+    let mut used: usize = 0;
+    let (more, produced) = {
+        let mut w = Writer::new(&mut out[..ol]);
+        let more = write_chunk(&input[..il], &mut used, &mut w, DEFAULT_CHUNK_SIZE);
+        let p = w.len();
+        core::mem::forget(w);
+        (more, p)
+    };
+    let t = used;
+    assert!(chunk_spec(t, il, ol, DEFAULT_CHUNK_SIZE) || t == 0 || t > il.min(DEFAULT_CHUNK_SIZE) || chunk_wire(t) > ol
+            || chunk_wire(t + 1) <= ol, "C03/lemma-self-check");
+    if t == 0 {
+        assert!(produced == 0, "C03/no-empty-chunk-and-failure-emits-nothing");
+        assert!(ol < 6, "C19/chunk-progress-when-six-bytes-free");
+        assert!(!more, "C03/no-more-after-failure");
+    } else {
+        assert!(t <= il && t <= DEFAULT_CHUNK_SIZE, "C03/chunk-within-offer-and-cap");
+        assert!(produced == chunk_wire(t), "C03/chunk-wire-size");
+        assert!(produced <= ol, "C03/chunk-fits");
+        assert!(t == il.min(DEFAULT_CHUNK_SIZE) || chunk_wire(t + 1) > ol, "C18/chunk-maximal");
+        assert!(more == (il > t), "C03/more-iff-input-left");
+        // (wire content is checked by c03_lemma_write_chunk_bytes; here the writer is count-abstracted)
+    }
+    kani::cover!(t == DEFAULT_CHUNK_SIZE && more, "full-chunk-and-more");
+    kani::cover!(t > 0 && t < il && t < DEFAULT_CHUNK_SIZE, "chunk-limited-by-space");
+    kani::cover!(t == 0, "no-room");
+    kani::cover!(t == 15 && ol == 20, "hex-digit-boundary-15");
+    kani::cover!(t == 16, "two-digit-size");
+    kani::cover!(t == 4096, "four-digit-size");
+}
+
+const WB: usize = if THOROUGH { 18 } else { 8 };
+const OB: usize = WB + 6;
+const PB: usize = if THOROUGH { 3 } else { 1 };
+
+//@ props: C03 C01 C12
+//@ tier: quick
+//@ unwind: 7
+//@ unwindset: c03_lemma_write_chunk_bytes=20|32
+//@ timeout: 900|2400
+//@ mem: 24
+//@ encodes: body::write_chunk (real, real Writer/Cursor/fmt), Writer::try_write rollback
+//@ vars: payload WB symbolic bytes (incl. CR/LF), in: 1..=WB; out: 0..=WB+6 behind a prefix p<=PB of already-written bytes; max_chunk: 1..=WB symbolic; WB=8,PB=1 quick / WB=18,PB=3 thorough
+//@ bounds: quick: chunks of 1..=8 bytes (one-digit size lines); thorough: 1..=18 bytes (one- and two-digit size lines)
+//@ outside: wire content of chunks with 3- and 4-digit size lines (their counts are covered by c03_lemma_write_chunk_counts)
+//@ clause: emitted bytes are exactly lower-hex(t) CRLF payload[..t] CRLF with t per chunk_spec; earlier output untouched; failure emits nothing
+#[kani::proof]
+fn c03_lemma_write_chunk_bytes() {
+    let payload: [u8; WB] = kani::any();
+    let out0: [u8; OB + PB] = kani::any();
+    let il: usize = kani::any();
+    kani::assume(il >= 1 && il <= WB);
+    let p = any_le(PB);
+    let ol = any_le(OB);
+    let max_chunk: usize = kani::any();
+    kani::assume(max_chunk >= 1 && max_chunk <= WB);
+    let mut out = out0;
+    let mut used: usize = 0;
+    let (more, end) = {
+        let mut w = Writer::new(&mut out[..p + ol]);
+        w.0.set_position(p as u64);
+        let more = write_chunk(&payload[..il], &mut used, &mut w, max_chunk);
+        let e = w.len();
+        core::mem::forget(w);
+        (more, e)
+    };
+    let t = used;
+    assert!(chunk_spec(t, il, ol, max_chunk), "C03/chunk-spec");
+    assert!(more == (t > 0 && il > t), "C03/more-iff-input-left");
+    let wire = if t == 0 { 0 } else { chunk_wire(t) };
+    assert!(end == p + wire, "C03/chunk-wire-size");
+    let h = hexlen(t);
+    // expected wire image of the emitted region (bytes behind `end` are not output)
+    let mut i = 0;
+    while i < OB + PB {
+        if i < p {
+            assert!(out[i] == out0[i], "C03/earlier-output-untouched");
+        } else if i < p + wire {
+            let k = i - p;
+            let exp = if k < h {
+                // lower-hex digit k of t (t <= 18 => at most two digits)
+                let d = if h == 2 && k == 0 { t >> 4 } else { t & 0xF };
+                if d < 10 { b'0' + d as u8 } else { b'a' + (d as u8 - 10) }
+            } else if k == h {
+                b'\r'
+            } else if k == h + 1 {
+                b'\n'
+            } else if k < h + 2 + t {
+                payload[k - h - 2]
+            } else if k == h + 2 + t {
+                b'\r'
+            } else {
+                b'\n'
+            };
+            assert!(out[i] == exp, "C03/chunk-wire-image");
+        }
+        i += 1;
+    }
+    kani::cover!(t == 0 && ol == 5, "five-spare-bytes");
+    kani::cover!(!THOROUGH || t >= 16, "two-digit-size-line");
+    kani::cover!(t > 0 && t < il && t < max_chunk, "limited-by-space");
+    kani::cover!(t == max_chunk && more, "limited-by-cap");
+    kani::cover!(t == il && t < max_chunk, "whole-input");
+}
+
+// ---------------------------------------------------------------- composites (write_chunk by contract)
+
+pub(crate) fn ghost_reset() {
+    G_CHUNKS.store(0, Ordering::Relaxed);
+    G_DATA.store(0, Ordering::Relaxed);
+    G_WIRE.store(0, Ordering::Relaxed);
+}
+pub(crate) fn ghost() -> (usize, usize, usize) {
+    (G_CHUNKS.load(Ordering::Relaxed), G_DATA.load(Ordering::Relaxed), G_WIRE.load(Ordering::Relaxed))
+}
+
+pub(crate) const NCOMP: usize = 3 * DEFAULT_CHUNK_AND_OVERHEAD + 64;
+
+/// Sum of the advertised formula's assumptions, restated: max input for `n` output bytes.
+pub(crate) fn spec_max_input_lower_bound(inlen: usize, out: usize) -> usize {
+    let m = calculate_max_input(out);
+    if inlen < m { inlen } else { m }
+}
+
+//@ props: C03 C18 C19 C01
+//@ tier: quick
+//@ unwind: 6
+//@ unwindset: write_all=3
+//@ timeout: 900
+//@ encodes: BodyWriter::write (Chunked arm: chunk loop, terminator, finished flag), BodyWriter::finish, body::calculate_max_input
+//@ stubs_note: body::write_chunk replaced by havoc constrained by chunk_spec (proven for the real function by c03_lemma_write_chunk_counts/_bytes in this run); <Writer as io::Write>::write count-abstracted (terminator bytes: c03_finish_step_bytes)
+//@ vars: ended: bool; in: 0..=30808; out: 0..=30808 (zero-filled buffers; contents are the lemma's business)
+//@ bounds: in,out <= 3*10248+64 (up to 4 chunks per call)
+//@ outside: more than 4 chunks in a single write (the loop body is identical per chunk)
+//@ clause: non-empty input: only whole non-empty chunks, consumed = sum of chunk data, produced = sum of chunk wire sizes, no terminator, not finished; consumed >= 1 when 6 bytes free; consumed >= min(in, advertised max); advertised max consumed completely. Empty input: exactly 0 CRLF CRLF iff 5 bytes free, finished iff emitted; once finished nothing more is emitted.
+#[kani::proof]
+#[kani::stub(write_chunk, p_write_chunk)]
+#[kani::stub(<Writer<'_> as std::io::Write>::write, p_writer_write_counts)]
+fn c03_composite_chunked_write() {
+    let ended: bool = kani::any();
+    let il = any_le(NCOMP);
+    let ol = any_le(NCOMP);
+    // non-empty write after the end is refused by Call::write before reaching the writer
+    kani::assume(!(ended && il > 0));
+    let input = [0u8; NCOMP];
+    let mut out = [0u8; NCOMP];
+    let mut bw = mk_writer_chunked(ended);
+    ghost_reset();
+    let (n, produced) = {
+        let mut w = Writer::new(&mut out[..ol]);
+        let n = bw.write(&input[..il], &mut w);
+        let p = w.len();
+        core::mem::forget(w);
+        (n, p)
+    };
+    let (chunks, data, wire) = ghost();
+    if il > 0 {
+        assert!(n == data, "C03/consumed-equals-sum-of-chunk-data");
+        assert!(produced == wire, "C03/only-whole-chunks-no-terminator-with-input");
+        assert!(n <= il, "C12/counts-within-windows");
+        assert!(!bw.is_ended(), "C03/not-finished-by-data-write");
+        if ol >= 6 {
+            assert!(n >= 1, "C19/progress-when-six-bytes-free");
+        }
+        assert!(n >= spec_max_input_lower_bound(il, ol), "C19/at-least-advertised-max");
+        if il == calculate_max_input(ol) {
+            assert!(n == il, "C18/advertised-max-fits");
+        }
+        kani::cover!(chunks == 4, "four-chunks");
+        kani::cover!(chunks == 2 && n < il, "two-chunks-then-full");
+        kani::cover!(n == 0, "no-room");
+        kani::cover!(il == calculate_max_input(ol) && il > 2 * DEFAULT_CHUNK_SIZE, "max-input-multi-chunk");
+    } else {
+        assert!(n == 0 && chunks == 0, "C03/empty-write-consumes-nothing");
+        if ended {
+            assert!(produced == 0, "C03/terminator-exactly-once");
+            assert!(bw.is_ended(), "C03/finished-is-stable");
+        } else {
+            assert!(produced == if ol >= 5 { 5 } else { 0 }, "C03/terminator-iff-five-bytes-free");
+            assert!(bw.is_ended() == (produced == 5), "C03/finished-iff-terminator-emitted");
+        }
+        kani::cover!(!ended && ol == 4, "terminator-does-not-fit");
+        kani::cover!(!ended && ol == 5, "terminator-fits-exactly");
+        kani::cover!(ended && ol >= 5, "repeated-finishing-write");
+    }
+}
+
+//@ props: C19
+//@ tier: quick
+//@ unwind: 6
+//@ unwindset: write_all=3
+//@ timeout: 900
+//@ encodes: BodyWriter::write (Chunked arm) twice from the same state with in1 <= in2
+//@ stubs_note: body::write_chunk replaced by havoc constrained by chunk_spec (deterministic: the spec fixes t uniquely)
+//@ vars: in1 <= in2 <= 30808; out <= 30808
+//@ bounds: as c03_composite_chunked_write
+//@ outside: as c03_composite_chunked_write
+//@ clause: offering more input never reduces progress: consumed(in2) >= consumed(in1)
+#[kani::proof]
+#[kani::stub(write_chunk, p_write_chunk)]
+#[kani::stub(<Writer<'_> as std::io::Write>::write, p_writer_write_counts)]
+fn c19_composite_monotone() {
+    let in1 = any_le(NCOMP);
+    let in2 = any_le(NCOMP);
+    kani::assume(1 <= in1 && in1 <= in2);
+    let ol = any_le(NCOMP);
+    let input = [0u8; NCOMP];
+    let mut out = [0u8; NCOMP];
+    let n1 = {
+        let mut bw = mk_writer_chunked(false);
+        let mut w = Writer::new(&mut out[..ol]);
+        let n = bw.write(&input[..in1], &mut w);
+        core::mem::forget(w);
+        n
+    };
+    let n2 = {
+        let mut bw = mk_writer_chunked(false);
+        let mut w = Writer::new(&mut out[..ol]);
+        let n = bw.write(&input[..in2], &mut w);
+        core::mem::forget(w);
+        n
+    };
+    assert!(n2 >= n1, "C19/more-input-never-reduces-progress");
+    kani::cover!(n2 > n1, "strictly-more");
+    kani::cover!(n1 == n2 && in2 > in1 && n1 > 0, "space-limited");
+}
+
+//@ props: C03
+//@ tier: quick
+//@ unwind: 4
+//@ unwindset: c03_finish_step_bytes=12
+//@ timeout: 600
+//@ encodes: BodyWriter::write (Chunked arm, empty input), BodyWriter::finish, real Writer
+//@ vars: ended: bool; out: 0..=8 symbolic bytes behind a prefix p<=2
+//@ bounds: out <= 8 bytes
+//@ outside: -
+//@ clause: an empty write emits exactly the 5 bytes 0 CR LF CR LF iff not finished and 5 bytes are free; finished afterwards iff the terminator has been emitted (now or earlier); earlier output untouched
+#[kani::proof]
+fn c03_finish_step_bytes() {
+    let ended: bool = kani::any();
+    let out0: [u8; 10] = kani::any();
+    let p = any_le(2);
+    let ol = any_le(8);
+    let mut out = out0;
+    let mut bw = mk_writer_chunked(ended);
+    let (n, end) = {
+        let mut w = Writer::new(&mut out[..p + ol]);
+        w.0.set_position(p as u64);
+        let n = bw.write(&[], &mut w);
+        let e = w.len();
+        core::mem::forget(w);
+        (n, e)
+    };
+    assert!(n == 0, "C03/empty-write-consumes-nothing");
+    let emit = !ended && ol >= 5;
+    assert!(end == p + if emit { 5 } else { 0 }, "C03/terminator-exactly-once-iff-five-bytes-free");
+    assert!(bw.is_ended() == (ended || emit), "C03/finished-iff-terminator-emitted");
+    let term = [b'0', b'\r', b'\n', b'\r', b'\n'];
+    let mut i = 0;
+    while i < 10 {
+        if emit && i >= p && i < p + 5 {
+            assert!(out[i] == term[i - p], "C03/terminator-bytes");
+        } else if i < p {
+            // (bytes behind the reported end are not output; a rolled-back partial write may have touched them)
+            assert!(out[i] == out0[i], "C03/earlier-output-untouched");
+        }
+        i += 1;
+    }
+    kani::cover!(emit, "terminator-emitted");
+    kani::cover!(!ended && ol == 4, "terminator-does-not-fit");
+    kani::cover!(ended && ol >= 5, "repeated-finishing-write");
+}
